@@ -605,7 +605,10 @@ func (g *Gen) list(c bctx) *Block {
 				first = g.leafBlock(0, bctx{cont: true}, nil)
 			}
 			it = []*Block{first}
-			if c.depth > 1 && !g.R.NoNestedInTight && g.pick("nested", 3) == 0 {
+			if !g.R.TightParaOnly && !g.R.NoNestedInTight {
+				it = g.tightSequence(it, c)
+			}
+			if c.depth > 1 && !g.R.NoNestedInTight && endsOpenPara(it[len(it)-1]) == (it[len(it)-1].K == Para) && it[len(it)-1].K != Quote && it[len(it)-1].K != HR && g.pick("nested", 3) == 0 {
 				sub := g.list(bctx{depth: c.depth - 1, cont: true})
 				// a nested list directly after a paragraph line can interrupt it
 				// only as a bullet list or an ordered list starting at 1
@@ -623,6 +626,67 @@ func (g *Gen) list(c bctx) *Block {
 		b.Tight = true // a single item with a single block cannot be loose
 	}
 	return b
+}
+
+// endsOpenPara reports whether the block's last line is paragraph text, so
+// that a following line of plain text would be a (lazy) continuation of it.
+func endsOpenPara(b *Block) bool {
+	switch b.K {
+	case Para:
+		return true
+	case Quote:
+		return len(b.Kids) > 0 && endsOpenPara(b.Kids[len(b.Kids)-1])
+	case List:
+		if len(b.Items) == 0 {
+			return false
+		}
+		last := b.Items[len(b.Items)-1]
+		return len(last) > 0 && endsOpenPara(last[len(last)-1])
+	}
+	return false
+}
+
+// tightSequence extends the single block of a tight list item to a sequence of
+// up to three blocks written without blank lines between them. The next block
+// is chosen so that it is recognised without a blank line: after a block whose
+// last line is paragraph text only blocks that can interrupt a paragraph
+// follow (ATX heading, fenced code, thematic break, block quote); a paragraph
+// only follows a block that is closed by its own last line.
+func (g *Gen) tightSequence(it []*Block, c bctx) []*Block {
+	n := g.pick("tightextra", 4) // 0: none (most common shapes keep a single block)
+	if n > 2 {
+		n = 0
+	}
+	for i := 0; i < n; i++ {
+		prev := it[len(it)-1]
+		var kinds []int
+		if endsOpenPara(prev) {
+			kinds = []int{4, 7, 6, 12}
+		} else if prev.K == Quote || prev.K == List {
+			// a quote or list that does not end in a paragraph: anything that
+			// is not continuation-like
+			kinds = []int{4, 7, 6, 12}
+		} else {
+			kinds = []int{0, 4, 7, 6, 12}
+		}
+		k := kinds[g.pick("tightnext", len(kinds))]
+		if k == 12 && prev.K == Quote {
+			k = 4 // two quotes without a blank line between them are one quote
+		}
+		var b *Block
+		if k == 12 {
+			if c.depth <= 1 {
+				k = 4
+			} else {
+				b = &Block{K: Quote, Kids: g.blocks(bctx{depth: 0, cont: true}, 1+g.pick("ntq", 2))}
+			}
+		}
+		if b == nil {
+			b = g.leafBlock(k, bctx{cont: true}, prev)
+		}
+		it = append(it, b)
+	}
+	return it
 }
 
 // Doc generates a document.
